@@ -8,6 +8,7 @@ import (
 	"crypto/sha256"
 	"encoding/hex"
 	"fmt"
+	"io"
 	"os"
 	"path/filepath"
 	"sort"
@@ -283,14 +284,29 @@ func runHistory(work string, m *mdl, hs []hop) histOutcome {
 		idhex := hex.EncodeToString(id[:])
 		var impl string
 		switch h.Kind {
-		case "put", "putbytes":
+		case "put", "putbytes", "putoff", "putreuse":
 			d := contents[h.C%len(contents)]
+			var reused *bytes.Reader
 			impl = common.Safely(func() string {
 				var err error
 				var o cache.OutputID
 				var n int64
 				if h.Kind == "put" {
 					o, n, err = c.Put(id, bytes.NewReader(d))
+				} else if h.Kind == "putoff" || h.Kind == "putreuse" {
+					// the source is not at offset 0 when Put gets it (partly consumed); Put must rewind
+					rd := bytes.NewReader(d)
+					off := h.N
+					if off > len(d) {
+						off = len(d)
+					}
+					rd.Seek(int64(off), io.SeekStart)
+					reused = rd
+					if h.Kind == "putoff" && h.T == 1 {
+						o, n, err = c.PutNoVerify(id, rd)
+					} else {
+						o, n, err = c.Put(id, rd)
+					}
 				} else {
 					err = c.PutBytes(id, d)
 					o, n = outOf(d), int64(len(d))
@@ -349,6 +365,38 @@ func runHistory(work string, m *mdl, hs []hop) histOutcome {
 				}
 				ask(i, "getbytes-after-put", "getbytes "+idhex, got)
 			}
+			if h.Kind == "putreuse" && reused != nil && strings.HasPrefix(impl, "PUTOK") {
+				// the same io.ReadSeeker, left at its end by the first Put, stored again under the next id
+				id2 := ids[(h.ID+1)%len(ids)]
+				id2hex := hex.EncodeToString(id2[:])
+				impl2 := common.Safely(func() string {
+					o, n, err := c.Put(id2, reused)
+					if err != nil {
+						return "PUTFAILED"
+					}
+					return fmt.Sprintf("PUTOK %s %d", hex.EncodeToString(o[:]), n)
+				})
+				tm2, ok2 := readTm(dir, id2)
+				if !ok2 {
+					tm2 = 1
+				}
+				ask(i, "putreuse-second", m.honestPutReq(id2, tm2, d), impl2)
+				got2 := common.Safely(func() string {
+					b, e, err := c.GetBytes(id2)
+					if err != nil {
+						return "NF"
+					}
+					if !bytes.Equal(b, d) {
+						return "F other bytes " + showBytes(b)
+					}
+					return "F " + showBytes(b) + " " + showEntry(e)
+				})
+				want2 := outOf(d)
+				if !strings.HasPrefix(got2, "F "+showBytes(d)+" "+hex.EncodeToString(want2[:])+" ") {
+					viol(i, "put-then-getbytes", "GetBytes after a successful Put from a reused io.ReadSeeker did not return the whole data: "+trunc(got2))
+				}
+				ask(i, "getbytes-after-put", "getbytes "+id2hex, got2)
+			}
 		case "get":
 			impl = common.Safely(func() string {
 				e, err := c.Get(id)
@@ -401,6 +449,94 @@ func runHistory(work string, m *mdl, hs []hop) histOutcome {
 			impl = common.Safely(func() string { return filepath.Base(c.OutputFile(o)) })
 			ask(i, "outputfile", "outputfile "+hex.EncodeToString(o[:]), impl)
 			out.tags["op:outputfile"]++
+		case "special":
+			// damage that makes a file or its directory something else than a regular file; it is
+			// undone afterwards (the model is not told): during it, every lookup must answer, none may
+			// panic, and GetFile (and Get, for an index file) of the targeted entry must say not-found
+			path, k, _ := h.target(dir)
+			impl = "ok"
+			old, rerr := os.ReadFile(path)
+			sub := filepath.Dir(path)
+			out.tags["special:"+specialNames[h.N%len(specialNames)]+":"+k]++
+			var undo func()
+			switch specialNames[h.N%len(specialNames)] {
+			case "symlink-loop":
+				os.Remove(path)
+				os.Symlink(path, path)
+				undo = func() { os.Remove(path) }
+			case "symlink-dangling":
+				os.Remove(path)
+				os.Symlink(path+".nowhere", path)
+				undo = func() { os.Remove(path) }
+			case "directory":
+				os.Remove(path)
+				os.Mkdir(path, 0o777)
+				undo = func() { os.Remove(path) }
+			case "subdir-is-file":
+				os.Rename(sub, sub+".saved")
+				os.WriteFile(sub, []byte("not a directory"), 0o666)
+				undo = func() { os.Remove(sub); os.Rename(sub+".saved", sub) }
+			case "unreadable":
+				if os.Geteuid() == 0 || rerr != nil {
+					undo = func() {}
+				} else {
+					os.Chmod(path, 0)
+					undo = func() { os.Chmod(path, 0o666) }
+				}
+			}
+			for ti := range ids {
+				tid := ids[ti]
+				r1 := common.Safely(func() string {
+					if _, err := c.Get(tid); err != nil {
+						return "NF"
+					}
+					return "F"
+				})
+				r2 := common.Safely(func() string {
+					b, e, err := c.GetBytes(tid)
+					if err != nil {
+						return "NF"
+					}
+					if sha256.Sum256(b) != e.OutputID {
+						return "BADSUM"
+					}
+					return "F"
+				})
+				r3 := common.Safely(func() string {
+					file, e, err := c.GetFile(tid)
+					if err != nil {
+						return "NF"
+					}
+					if st, err := os.Stat(file); err != nil || st.Size() != e.Size {
+						return "BADSIZE"
+					}
+					return "F"
+				})
+				for qi, r := range []string{r1, r2, r3} {
+					call := []string{"Get", "GetBytes", "GetFile"}[qi]
+					switch r {
+					case "PANIC":
+						viol(i, "no-panic", fmt.Sprintf("%s(id%d) panicked while the %s file of the history's target was damaged (%s)", call, ti, k, specialNames[h.N%len(specialNames)]))
+					case "BADSUM":
+						viol(i, "getbytes-checksum", "GetBytes returned bytes whose SHA-256 is not the reported OutputID during special damage")
+					case "BADSIZE":
+						viol(i, "getfile-size", "GetFile named a file whose length is not the reported size during special damage")
+					}
+				}
+				targeted := (k == "a" && ti == h.ID%len(ids)) || (k == "d" && strings.HasPrefix(lookupOut(c, tid), hex.EncodeToString(func() []byte { o := outOf(contents[h.C%len(contents)]); return o[:] }())))
+				if targeted && specialNames[h.N%len(specialNames)] != "unreadable" {
+					if r3 == "F" {
+						viol(i, "special-not-found", fmt.Sprintf("GetFile(id%d) succeeded although its %s file is %s", ti, k, specialNames[h.N%len(specialNames)]))
+					}
+					if k == "a" && r1 == "F" {
+						viol(i, "special-not-found", fmt.Sprintf("Get(id%d) succeeded although its index file is %s", ti, specialNames[h.N%len(specialNames)]))
+					}
+				}
+			}
+			undo()
+			if rerr == nil && specialNames[h.N%len(specialNames)] != "subdir-is-file" && specialNames[h.N%len(specialNames)] != "unreadable" {
+				os.WriteFile(path, old, 0o666)
+			}
 		default: // damage
 			path, k, name := h.target(dir)
 			impl = "ok"
@@ -538,6 +674,24 @@ func trunc(s string) string {
 		return s[:200] + "…" + s[len(s)-150:]
 	}
 	return s
+}
+
+var specialNames = []string{"symlink-loop", "symlink-dangling", "directory", "subdir-is-file", "unreadable"}
+
+// lookupOut returns the hex OutputID the index entry of id names ("" when Get fails); used while a
+// data file is specially damaged, when Get itself still works.
+func lookupOut(c *cache.Cache, id cache.ActionID) string {
+	r := common.Safely(func() string {
+		e, err := c.Get(id)
+		if err != nil {
+			return ""
+		}
+		return hex.EncodeToString(e.OutputID[:])
+	})
+	if r == "PANIC" {
+		return ""
+	}
+	return r
 }
 
 // ---- generators
@@ -780,6 +934,15 @@ func genHistory(r *common.RNG) ([]hop, []string) {
 			if r.Chance(1, 3) {
 				k = "putbytes"
 			}
+			if r.Chance(1, 6) {
+				// a source that is not at offset 0 / that is used for two Puts
+				k = "putoff"
+				if r.Chance(1, 3) {
+					k = "putreuse"
+				}
+				hs = append(hs, hop{Kind: k, ID: id, C: c, N: 1 + r.Intn(len(contents[c])+1), T: r.Intn(2)})
+				continue
+			}
 			hs = append(hs, hop{Kind: k, ID: id, C: c})
 		case x < 34:
 			hs = append(hs, hop{Kind: "get", ID: id})
@@ -789,6 +952,12 @@ func genHistory(r *common.RNG) ([]hop, []string) {
 			hs = append(hs, hop{Kind: "getfile", ID: id})
 		case x < 63:
 			hs = append(hs, hop{Kind: "outputfile", C: c})
+		case x < 66:
+			k := "d"
+			if r.Chance(1, 3) {
+				k = "a"
+			}
+			hs = append(hs, hop{Kind: "special", K: k, ID: id, C: c, N: r.Intn(len(specialNames))})
 		case x < 78:
 			raw, tag := genRaw(r, id)
 			kinds = append(kinds, tag)
@@ -932,6 +1101,22 @@ func runC05(f *common.Flags, res *common.Result, m *mdl) {
 			}
 			res.Count("raw:" + strings.Join(tagParts, ":"))
 			one(hs, "degenerate")
+		}
+	}
+	// 1c. sources that are not at offset 0, a reused source, and every special damage of an index
+	// and of a data file, with the entry present
+	for _, ci := range []int{1, 3, 0} {
+		for _, off := range []int{1, len(contents[ci]) / 2, len(contents[ci]), len(contents[ci]) + 5} {
+			for t := 0; t < 2; t++ {
+				one([]hop{{Kind: "putoff", ID: 0, C: ci, N: off, T: t}, {Kind: "getbytes", ID: 0}, {Kind: "getfile", ID: 0}}, "source-offset")
+			}
+			one([]hop{{Kind: "putreuse", ID: 0, C: ci, N: off}, {Kind: "getbytes", ID: 0}, {Kind: "getbytes", ID: 1}}, "source-offset")
+		}
+		for sp := range specialNames {
+			for _, k := range []string{"a", "d"} {
+				one([]hop{{Kind: "put", ID: 0, C: ci}, {Kind: "put", ID: 2, C: 4}, {Kind: "special", K: k, ID: 0, C: ci, N: sp},
+					{Kind: "getbytes", ID: 0}, {Kind: "getfile", ID: 0}, {Kind: "getbytes", ID: 2}}, "special-damage")
+			}
 		}
 	}
 	r := common.NewRNG(f.Seed)
